@@ -36,7 +36,7 @@ TSTART = 58123.456789012345
 
 
 def REQUIRED(tier):
-    return [f"api:{a}" for a in APIS] + ["tstart_checks", "label_checks", "shape_checks", "foff>0", "start>0", "regime:crosses_utc_midnight"]
+    return [f"api:{a}" for a in APIS] + ["tstart_checks", "label_checks", "shape_checks", "foff>0", "start>0", "regime:crosses_utc_midnight", "regime:remainder_longer_than_output"]
 
 
 def cases(tier, seed):
@@ -70,7 +70,8 @@ def _input(ctx, case):
         d = os.path.join(ctx.tmp, f"i{len(os.listdir(ctx.tmp))}")
         os.makedirs(d)
         split = [N] if case["nfiles"] == 1 else [N // 3, N - N // 3]
-        paths = sigfile.write_split(d, X, 32, split, tsamp=TSAMP, tstart=_tstart_for(case), fch1=fch1, foff=foff)
+        # every other input already carries a reference DM in its header (a sub-banded or pipeline-tagged file)
+        paths = sigfile.write_split(d, X, 32, split, tsamp=TSAMP, tstart=_tstart_for(case), fch1=fch1, foff=foff, **({"refdm": 12.5} if case["pseed"] % 2 else {}))
         cache[key] = (X, paths, d)
     return cache[key]
 
@@ -252,6 +253,7 @@ def run_case(case, ctx):
             ck.shape(ts.header, ts.data.size, 1)
             ck.tstart(ts.header, int(t[0]), reg)
             ck.labels(ts.header, [[int(c[0])]], fch1, foff)
+            ck.dm(ts.header.dm, 0.0)     # a single channel carries no dispersion correction, whatever the input's header says
         elif api == "dedisperse":
             dm = float(rng.uniform(0, 3)) if foff < 0 else 0.0
             delays = np.asarray(fil.header.get_dmdelays(dm)).reshape(-1)
@@ -369,8 +371,10 @@ def run_case(case, ctx):
         elif api.startswith("block_"):
             b = fil.read_block(start, nsamps)
             if api == "block_downsample":
-                tf = int(rng.choice([1, 2, 3]))
-                ff = int(rng.choice([f for f in (1, 2, 4) if nch % f == 0]))
+                tf = int(rng.choice([1, 2, 3, 7, 32, 50]))      # incl. factors leaving a remainder longer than the output
+                ff = int(rng.choice([f for f in (1, 2, 4) if nch % f == 0] + [3, 5, 12]))
+                if nsamps % tf >= nsamps // tf or nch % ff >= nch // ff:
+                    ctx.count("regime:remainder_longer_than_output")
                 case = dict(case, tfactor=tf, ffactor=ff); ck.case = case
                 b2 = b.downsample(ffactor=ff, tfactor=tf)
                 ck.shape(b2.header, b2.data.shape[1], b2.data.shape[0])
